@@ -27,6 +27,8 @@ func init() {
 			{"C18.R4", "q", "shared: deferred endGCWriting", c18r4},
 			{"C13.R9", "q", "shared: a colliding key in the hint buffer is reported to GC", c13r9},
 			{"C04.L9", "q", "shared: lock contracts of helpers", c04l9},
+			{"C13.R12", "q", "shared: collision table takes the position of a record moved by GC", c13r12},
+			{"C14.R14", "q", "shared: split dump discipline", c14r14},
 		},
 	})
 }
@@ -219,9 +221,28 @@ func c05r2(c *Ctx) {
 				bad = c.pos(rs)
 			}
 		}
+		if br, ok := x.(*ast.BranchStmt); ok && br.Tok == token.BREAK && br.Label == nil {
+			// a break that leaves the record loop itself is the end-of-file exit only
+			var inner ast.Node
+			for _, enc := range f.Enclosing(br) {
+				switch enc.(type) {
+				case *ast.ForStmt, *ast.RangeStmt, *ast.SwitchStmt, *ast.TypeSwitchStmt, *ast.SelectStmt:
+					if inner == nil {
+						inner = enc
+					}
+				}
+			}
+			if inner == ast.Node(loop) {
+				n++
+				recObj := f.ResultObj(nexts[0].Expr, 0)
+				if recObj == nil || !prog.HasNilFact(info, f.GuardsAt(br), prog.IsObj(info, recObj), true) {
+					bad = c.pos(br)
+				}
+			}
+		}
 		return true
 	})
-	c.check(bad == "", R, f.Key+": record loop left only on errors", c.pos(loop), itoa(n)+" returns inside the record loop, all on err != nil",
+	c.check(bad == "", R, f.Key+": record loop left only on errors", c.pos(loop), itoa(n)+" exits inside the record loop: returns on err != nil, break on end of file",
 		"the record loop can be left in the middle of a source file on a non-error path ("+bad+"): with an in-place rewrite the deferred endGCWriting truncates the file at the write head and every record not yet scanned is destroyed while the tree still points at it")
 }
 
